@@ -25,6 +25,7 @@ ASSUME = {
     "A-codec": "A-codec: bincode decode returns Ok(s) iff the bytes are encode(s); encode is injective and prefix-free; SeaHasher is a function of the bytes written",
     "A-cmd": "A-cmd: running build_command(script, dir) yields the world's cmd(dir, script)",
     "A-all": "A-all: async_utils::all / both, future::join / try_join_all, Result::map, collect() behave as their names say (true iff every future is; one result per element in order; fold of insert); the per-element closures are outlined and verified (R13)",
+    "A-clap": "A-clap: clap's ArgMatches::is_present is an uninterpreted predicate of the flag name",
     "A-str": "A-str: str/Path/OsStr predicates (ends_with, starts_with, file_name, to_string_lossy, is_in_work_dir, matches_extensions) are uninterpreted functions; to_string_lossy is total",
     "A-notify": "A-notify: notify calls the handler for every event under a watched path that existed at watch() time",
     "A-yaml": "A-yaml: serde_yaml / clap parsing are not modelled; load_project is an arbitrary function returning Result<Project>",
@@ -47,13 +48,15 @@ PROPS = {
     "C05": {"units": ["INC", "BLD", "ACT"], "level": "proof", "assume": INCA + ["A-chan", "A-proc", "R16"]},
     "C06": {"units": ["ACT", "RELAY", "INC", "WCH"], "level": "proof", "assume": ACTORS + ["A-notify", "A-fs", "A-codec"],
             "not_covered": ["not covered: convergence as a liveness statement; notify's delivery guarantees"]},
-    "C07": {"units": ["BLD", "ACT", "RELAY"], "level": "proof", "assume": ACTORS,
+    "C07": {"units": ["BLD", "ACT", "RELAY", "CLN"], "level": "proof", "assume": ACTORS,
             "not_covered": ["not covered: the text of the error message"]},
-    "C08": {"units": ["ACT", "BLD", "RELAY"], "level": "proof", "assume": ACTORS,
+    "C08": {"units": ["ACT", "BLD", "RELAY", "CLN"], "level": "proof", "assume": ACTORS,
             "not_covered": ["not covered: 'at least once' is C04's liveness"]},
-    "C10": {"units": ["BLD", "ACT", "RELAY"], "level": "proof", "assume": ACTORS,
+    "C10": {"units": ["BLD", "ACT", "RELAY", "CLN"], "level": "proof", "assume": ACTORS,
             "not_covered": ["not covered: any latency bound; grandchildren of the shell; the hand-off from the signal handler task"]},
     "C11": {"units": ["ACT", "RELAY"], "level": "proof", "assume": ACTORS},
+    "C12": {"units": ["CLN", "INC"], "level": "proof", "assume": ["A-hash", "A-std", "A-fs", "A-clap", "R1"],
+            "not_covered": ["not covered: what remove_dir_all and the directory walk do with symbolic links (A-fs); clap argument parsing"]},
     "C16": {"units": ["WCH"], "level": "proof", "assume": ["A-std", "A-chan", "A-notify", "A-str", "A-all"],
             "not_covered": ["not covered: notify itself, recursion into directories created later; the byte-level behaviour of the str predicates (bounded Kani harnesses in the KANI unit)"]},
     "C18": {"units": ["INC"], "level": "proof", "assume": INCA,
